@@ -44,7 +44,7 @@ type responseWriter struct {
 	size        int          // The written size of the response.
 	beforeFuncs []BeforeFunc // The list of functions to be called before written to the response.
 
-	writeHeaderOnce sync.Once
+	writeHeaderMu sync.Mutex // Serializes the first call to the underlying WriteHeader.
 }
 
 // BeforeFunc is a function that is called before the ResponseWriter is written.
@@ -59,21 +59,31 @@ func NewResponseWriter(method string, w http.ResponseWriter) ResponseWriter {
 }
 
 func (w *responseWriter) callBefore() {
-	for i := len(w.beforeFuncs) - 1; i >= 0; i-- {
-		w.beforeFuncs[i](w)
+	// Pop before calling so that every function runs at most once, even when one
+	// of them or the underlying WriteHeader panics and the header is sent by a
+	// later call.
+	for len(w.beforeFuncs) > 0 {
+		last := len(w.beforeFuncs) - 1
+		before := w.beforeFuncs[last]
+		w.beforeFuncs = w.beforeFuncs[:last]
+		before(w)
 	}
 }
 
 func (w *responseWriter) WriteHeader(s int) {
-	w.writeHeaderOnce.Do(func() {
-		if w.Written() {
-			return
-		}
+	w.writeHeaderMu.Lock()
+	defer w.writeHeaderMu.Unlock()
 
-		w.callBefore()
-		w.ResponseWriter.WriteHeader(s)
-		atomic.StoreInt32(&w.status, int32(s))
-	})
+	// The header only counts as written once the underlying ResponseWriter has
+	// accepted it: when it panics (e.g. net/http does for an invalid status code)
+	// a later call, such as the 500 sent by Recovery, must still go through.
+	if w.Written() {
+		return
+	}
+
+	w.callBefore()
+	w.ResponseWriter.WriteHeader(s)
+	atomic.StoreInt32(&w.status, int32(s))
 }
 
 func (w *responseWriter) Write(b []byte) (size int, err error) {
